@@ -30,8 +30,9 @@ MONITOR_TIMEOUT = 12.0
 
 
 def regen(ctx):
-    from translate import c08_tables
+    from translate import c08_tables, c08_shape
     ctx.write_gen('C08Tables', c08_tables.generate())
+    ctx.write_gen('C08Shape', c08_shape.generate())
 
 
 # ----------------------------------------------------------------------------- shim
@@ -802,7 +803,8 @@ def data_exprs(cfg, res):
 
 def data_signature(cfg, kind):
     if kind == 'timer-stall':
-        return 'ertm:timer-stall'
+        # (the signature 'ertm:timer-stall' was the known finding D08t before fixes/D08t.patch)
+        return 'ertm:stall-after-timer'
     return f"data:{kind}:{cfg['a']['mode']}"
 
 
@@ -857,9 +859,17 @@ SMALL_SCOPE = [
 ]
 
 
+SMALL_SCOPE_THOROUGH = [
+    (2, 3, 3, 2, [['WA', 1, 9], ['WB', 2, 7], ['WA', 3, 2]]),
+    (1, 1, 1, 1, [['WA', 1, 4], ['WB', 2, 4]]),
+    (3, 63, 2, 1, [['WA', 1, 8], ['WB', 2, 10]]),
+    (2, 2, 2, 2, [['WA', 1, 5], ['TA'], ['WB', 2, 3]]),
+]
+
+
 def check_small_scope(ctx, cap):
     cases, results = [], []
-    for mps_a, win_a, mps_b, win_b, writes in SMALL_SCOPE:
+    for mps_a, win_a, mps_b, win_b, writes in SMALL_SCOPE + ([] if ctx.quick() else SMALL_SCOPE_THOROUGH):
         cfg = {'a': {'mode': 'ertm', 'mps': mps_a, 'win': win_a, 'mtu': 2048, 'fcs': False, 'feat': True},
                'b': {'mode': 'ertm', 'mps': mps_b, 'win': win_b, 'mtu': 2047, 'fcs': True, 'feat': True}, 'srv': True}
         n = 0
@@ -1263,6 +1273,23 @@ def search(ctx):
         if bad:
             ctx.violation(data_signature(cfg, bad[0]), f'search: {bad[1]}', {'kind': 'data', 'cfg': cfg, 'schedule': sched})
             return
+    if len(ctx.violations) == before:
+        for _ in range(300):
+            cfg, ops = gen_foreign_case(rng)
+            res = run_foreign(cfg, ops)
+            if res.get('open'):
+                bad = foreign_oracle(cfg, ops, res)
+                if bad:
+                    ctx.violation(f'foreign:{bad[0]}', f'search: {bad[1]}', {'kind': 'foreign', 'cfg': cfg, 'ops': ops})
+                    return
+        for _ in range(200):
+            cfg, sched = gen_timer_case(rng)
+            res = run_data(cfg, sched, rng.next())
+            if res.get('open'):
+                bad = data_oracle(cfg, res)
+                if bad:
+                    ctx.violation(data_signature(cfg, bad[0]), f'search: {bad[1]}', {'kind': 'data', 'cfg': cfg, 'schedule': sched})
+                    return
     if len(ctx.violations) == before:
         for cfg in setup_configs():
             for sched, obs in all_setup_runs(cfg):
